@@ -48,10 +48,11 @@ THERMOSTATS = 2
 
 SET_TYPE = {"ecomax": FrameType.REQUEST_SET_ECOMAX_PARAMETER, "mixer": FrameType.REQUEST_SET_MIXER_PARAMETER,
             "thermostat": FrameType.REQUEST_SET_THERMOSTAT_PARAMETER, "schedule": FrameType.REQUEST_SET_SCHEDULE,
-            "profile": FrameType.REQUEST_SET_THERMOSTAT_PARAMETER}
+            "profile": FrameType.REQUEST_SET_THERMOSTAT_PARAMETER, "control": FrameType.REQUEST_ECOMAX_CONTROL}
 REFRESH_TYPE = {"ecomax": FrameType.REQUEST_ECOMAX_PARAMETERS, "mixer": FrameType.REQUEST_MIXER_PARAMETERS,
                 "thermostat": FrameType.REQUEST_THERMOSTAT_PARAMETERS, "schedule": FrameType.REQUEST_SCHEDULES,
-                "profile": FrameType.REQUEST_ECOMAX_PARAMETERS}   # the profile is an ecoMAX-level parameter
+                "profile": FrameType.REQUEST_ECOMAX_PARAMETERS,   # the profile is an ecoMAX-level parameter
+                "control": FrameType.REQUEST_ECOMAX_PARAMETERS}   # so is the on/off control switch
 
 _TABLES = None
 
@@ -69,7 +70,8 @@ def tables():
 
 def _conv_words(kind, row):
     """driver words (cls mnum mden offset precision) as harness/paramdev.conv_words / Model/ParamTables.convOf"""
-    cls = "sw" if row["switch"] else {"ecomax": "so", "mixer": "so", "thermostat": "sc", "schedule": "pl", "profile": "so"}[kind]
+    cls = "sw" if row["switch"] else {"ecomax": "so", "mixer": "so", "thermostat": "sc", "schedule": "pl", "profile": "so",
+                                      "control": "sw"}[kind]
     off = row["offset"] if cls == "so" else 0
     return f"{cls} {row['mult_num']} {row['mult_den']} {off} {row['precision']}"
 
@@ -94,6 +96,11 @@ TARGET_IDS = {
     "schedule:heating:s": ("schedule", 0, "heating", "s"),
     # the thermostat profile: an ecoMAX-level number fed by the thermostat-parameters response
     "profile": ("profile", 0, 0, None),
+    # the controller on/off switch: an ecoMAX-level switch fed by the state byte of the sensor-data message
+    # (behind on_change: only a CHANGE of the state reaches the parameter), written by the control request
+    "control": ("control", 0, 0, None),
+    # a mixer switch
+    "mixer0:4": ("mixer", 0, 4, None),
 }
 BASE_TARGETS = ("ecomax", "mixer", "thermostat", "schedule")
 PARTNER = {"heating": "heating_circulation", "heating_circulation": "heating", "mixer_10": "mixer_1", "mixer_1": "mixer_10",
@@ -115,6 +122,9 @@ class Target:
         elif self.kind == "profile":
             self.index = 0
             row = t["special"]["thermostatProfile"]
+        elif self.kind == "control":
+            self.index = 0
+            row = t["special"]["ecomaxControl"]
         else:
             self.index = ix
             row = t["tables"][{"ecomax": "ecomaxP", "mixer": "mixerP", "thermostat": "thermostat"}[self.kind]][ix]
@@ -147,21 +157,25 @@ def target(tid):
     return _TARGETS[tid]
 
 
-def sensor_message(versions):
+def sensor_message(versions, state=0):
     head = bytes([len(versions)]) + b"".join(bytes([ft, ver & 0xFF, ver >> 8]) for ft, ver in versions)
-    return SensorDataMessage(sender=DeviceType.ECOMAX, message=bytearray(head + SENSOR_TAIL))
+    return SensorDataMessage(sender=DeviceType.ECOMAX, message=bytearray(head + bytes([state]) + SENSOR_TAIL[1:]))
 
 
 def _le(v, size):
     return int(v).to_bytes(size, "little")
 
 
-def report_frame(tid, triple):
+def report_frame(tid, triple, versions=()):
     """parameters response in which the parameter under test carries `triple` (everything else
     in it is filler that never changes)"""
     tg = target(tid)
     v, lo, hi = triple
     E = DeviceType.ECOMAX
+    if tg.kind == "control":     # sensor data whose state byte is OFF (0) / WORKING (3); the range of the switch is 0..1 by construction
+        if (lo, hi) != (0, 1) or v not in (0, 1):
+            raise ValueError("the control switch has no reportable range")
+        return sensor_message(list(versions), 3 if v else 0)
     if tg.kind == "ecomax":      # [_, start, count, triples...]
         return EcomaxParametersResponse(sender=E, message=bytearray(bytes([0, tg.index, 1, v, lo, hi])))
     if tg.kind == "mixer":       # [_, start, count, mixers, per mixer: triples...]
@@ -219,6 +233,8 @@ def tx_value(tid, frame):
         return m[2] if len(m) == 3 and m[0] == tg.dev and m[1] == tg.index else None
     if tg.kind == "profile":      # [index 0 + offset 0, value (1 byte)]
         return m[1] if len(m) == 2 and m[0] == 0 else None
+    if tg.kind == "control":      # [value]
+        return m[0] if len(m) == 1 else None
     if tg.kind == "thermostat":   # [index + 1 + thermostat * (parameters per thermostat), value (size bytes)]
         want = tg.index + 1 + tg.dev * (tg.index + 1)
         return int.from_bytes(m[1:], "little") if len(m) == 1 + tg.size and m[0] == want else None
@@ -251,7 +267,10 @@ def ms(t):
 class Rig:
     """one device + one parameter, driven event by event"""
 
-    def __init__(self, kind, tracking, hold, initial, start_ms=0, late=False, via_device=False, display=None, fresh=False):
+    def __init__(self, kind, tracking, hold, initial, start_ms=0, late=False, via_device=False, display=None, fresh=False,
+                 route=None, defer=False):
+        self.defer = defer             # the parameter does not exist yet when the client calls Device.set(name, ...): its first report comes later
+        self.route = route             # public set route (ROUTES); None: Parameter.set by keywords / Device.set (via_device)
         self.target = target(kind)
         self.tid = kind
         kind = self.kind = self.target.kind
@@ -273,15 +292,20 @@ class Rig:
         self.device.handle_frame(UIDResponse(sender=DeviceType.ECOMAX, message=bytearray(UID_PAYLOAD)))
         self.loop.settle()
         versions = [(int(REFRESH_TYPE[kind]), 1)] if tracking else [(int(FrameType.REQUEST_ALERTS), 1)]
+        self.versions = versions
         self.device.handle_frame(sensor_message(versions))
         self.loop.settle()
-        self.device.handle_frame(report_frame(self.target, initial))
+        if not defer:
+            self.device.handle_frame(report_frame(self.target, initial, self.versions))
         self.loop.settle()
         try:
             self.param = find_parameter(self.device, self.target)
+            if defer:
+                self.broken = "X:parameter-exists-before-its-first-report"
         except KeyError:
             self.param = None
-            self.broken = "X:parameter-missing-after-its-first-report"
+            if not defer:
+                self.broken = "X:parameter-missing-after-its-first-report"
         self.drain()
         self.loop.hold = hold
 
@@ -347,12 +371,15 @@ class Rig:
         if p[0] == "c":
             if True:
                 v, r, T = int(p[1]), int(p[2]), int(p[3])
+                raw = v
                 k = len(self.tasks)
                 disp = self.display if not isinstance(self.display, list) else (self.display[k] if k < len(self.display) else None)
                 if isinstance(self.display, list) or k == 0:
                     if disp is not None:
                         v = disp          # the display value whose raw value (Lean: toRaw) is the token's v
-                if self.via_device and T == 5000:      # Device.set uses Parameter.set's default timeout
+                if self.route is not None:
+                    self.tasks.append(self.call_route(self.route, v, r, T, raw))
+                elif self.via_device and T == 5000:      # Device.set uses Parameter.set's default timeout
                     holder, name = find_holder(self.device, self.target)
                     self.tasks.append(loop.create_task(holder.set(name, v, retries=r)))
                 else:
@@ -362,7 +389,7 @@ class Rig:
             if loop.held:
                 loop.release(0)
         elif p[0] == "r":
-            self.device.handle_frame(report_frame(self.target, (int(p[1]), int(p[2]), int(p[3]))))
+            self.device.handle_frame(report_frame(self.target, (int(p[1]), int(p[2]), int(p[3])), self.versions))
         elif p[0] == "k":
             # the controller starts announcing the version of the parameters frame (sensor data with a
             # frame-versions entry): from now on has_frame_version(...) is True.  The announcement itself makes
@@ -373,7 +400,9 @@ class Rig:
                 self.tracking = True
                 before = self.drain()
                 hold, loop.hold = loop.hold, False
-                self.device.handle_frame(sensor_message([(int(REFRESH_TYPE[self.kind]), 1)]))
+                self.versions = [(int(REFRESH_TYPE[self.kind]), 1)]
+                state = 3 if (self.kind == "control" and self.device.data["ecomax_control"].values.value) else 0
+                self.device.handle_frame(sensor_message(self.versions, state))
                 loop.settle()
                 loop.hold = hold
                 got = []
@@ -400,16 +429,115 @@ class Rig:
         return self.drain()
 
 
+# ----------------------------------------------------------------------------- public set routes
+# route id -> (object the call is made on, method, argument form).  The call token c:<v>:<retries>:<timeout> is what the
+# CALLER means; a form that leaves an argument out is only admissible when the token carries that argument's documented
+# default (5 attempts, 5.0 s), a turn_on/turn_off form only for the value 1/0.
+#   object: P = the Parameter object, D = the device object that holds it (by name), E = the EcoMAX (control switch only)
+#   forms : kw  f(v, retries=r, timeout=T)   pos f(v, r, T)   wk f(v, timeout=T, retries=r)   r f(v, r) / f(v, retries=r)
+#           t   f(v, timeout=T)              0   f(v)         on/off  f()
+# Device.set / set_nowait: `timeout` is documented as the time to wait for the parameter to become available and is
+# NOT the retry interval (the set machine runs with the default interval): forms kw/pos pass a Device-level timeout
+# and demand T = 5000 of the token.
+DEFAULT_RETRIES, DEFAULT_TIMEOUT = 5, 5000
+ROUTES = {}
+for _obj, _meths in (("P", ("set", "set_nowait")), ("D", ("set", "set_nowait"))):
+    for _m in _meths:
+        for _form in ("kw", "pos", "wk", "r", "rk", "t", "0"):
+            if _obj == "D" and _form == "t":
+                continue
+            ROUTES[f"{_obj}.{_m}/{_form}"] = (_obj, _m, _form)
+for _obj in ("P", "E"):
+    for _m in ("turn_on", "turn_off", "turn_on_nowait", "turn_off_nowait"):
+        ROUTES[f"{_obj}.{_m}"] = (_obj, _m, "on" if "_on" in _m else "off")
+
+
+def route_admits(route, tg, v, r, T):
+    """may the call token c:v:r:T be expressed through this route on this target?"""
+    obj, meth, form = ROUTES[route]
+    if form in ("on", "off"):
+        if not tg.switch or (obj == "E") != (tg.kind == "control"):
+            return False
+        return v == (1 if form == "on" else 0) and r == DEFAULT_RETRIES and T == DEFAULT_TIMEOUT
+    if obj == "D" or form in ("r", "rk", "0"):
+        if T != DEFAULT_TIMEOUT:
+            return False
+    if form in ("t", "0") and r != DEFAULT_RETRIES:
+        return False
+    return True
+
+
+def routes_for(tg, v, r, T):
+    return [k for k in ROUTES if route_admits(k, tg, v, r, T)]
+
+
+def _call_args(form, v, r, T, device_level, raw=0):
+    ts = T / 1000.0 if T % 1000 else (T // 1000 if (raw + r) % 2 else T / 1000.0)    # 2 and 2.0 are both "two seconds"
+    if device_level:     # Device.set(name, value, retries, timeout): timeout = wait for the parameter (it exists: no wait)
+        wait = [None, 0.25, 3, 7.5][(raw + r) % 4]
+        return {"kw": ((v,), dict(retries=r, timeout=wait)), "pos": ((v, r, wait), {}), "wk": ((v,), dict(timeout=wait, retries=r)),
+                "r": ((v, r), {}), "rk": ((v,), dict(retries=r)), "0": ((v,), {})}[form]
+    return {"kw": ((v,), dict(retries=r, timeout=ts)), "pos": ((v, r, ts), {}), "wk": ((v,), dict(timeout=ts, retries=r)),
+            "r": ((v, r), {}), "rk": ((v,), dict(retries=r)), "t": ((v,), dict(timeout=ts)), "0": ((v,), {}),
+            "on": ((), {}), "off": ((), {})}[form]
+
+
+def _no_task(loop, what):
+    fut = loop.create_future()
+    fut.set_exception(RuntimeError(what))
+    return fut
+
+
+def _rig_call_route(self, route, v, r, T, raw):
+    """make the call through the public route; -> the task / future whose completion is the end of the call
+    (v: the value handed over, raw: the raw value the call token means)"""
+    obj, meth, form = ROUTES[route]
+    if not route_admits(route, self.target, raw, r, T):
+        raise ValueError(f"route {route} cannot express c:{raw}:{r}:{T} on {self.tid}")
+    holder, name = find_holder(self.device, self.target)
+    if obj == "P":
+        on = find_parameter(self.device, self.target) if self.fresh else self.param
+        owner = on.device
+        args, kw = _call_args(form, v, r, T, False, raw)
+    elif obj == "D":
+        on, owner = holder, holder
+        args, kw = _call_args(form, v, r, T, True, raw)
+        args = (name,) + args
+    else:
+        on, owner = self.device, self.device
+        args, kw = (), {}
+    fn = getattr(on, meth)
+    if meth.endswith("_nowait"):
+        before = set(owner.tasks)
+        ret = fn(*args, **kw)
+        new = [t for t in owner.tasks if t not in before]
+        if ret is not None:
+            return _no_task(self.loop, f"nowait-returned:{type(ret).__name__}")
+        if len(new) != 1:
+            return _no_task(self.loop, f"nowait-tasks:{len(new)}")
+        return new[0]
+    return self.loop.create_task(fn(*args, **kw))
+
+
+Rig.call_route = _rig_call_route
+
+
 class Tie(Exception):
     """two timers of overlapping calls are due at the same virtual instant: the order is not the property's business"""
 
 
-def run_history(kind, tracking, hold, initial, events_, start_ms=0, late=False, via_device=False, display=None, fresh=False):
+def run_history(kind, tracking, hold, initial, events_, start_ms=0, late=False, via_device=False, display=None, fresh=False,
+                route=None, defer=False):
     """-> (groups: list of output lists per event, final clock ms, local triple at the end)"""
-    rig = Rig(kind, tracking, hold, initial, start_ms, late, via_device, display, fresh)
+    rig = Rig(kind, tracking, hold, initial, start_ms, late, via_device, display, fresh, route, defer)
     try:
         groups = [rig.apply(e) for e in events_]
         rig.resolve()
+        if rig.param is None and defer:
+            try:
+                rig.param = find_parameter(rig.device, rig.target)
+            except KeyError:
+                pass
         if rig.param is None:
             return groups, rig.now(), (-1, -1, -1), False
         # the triple the CLIENT sees through device.data now must be the kept object's (parameters are updated in place)
